@@ -3,6 +3,7 @@
 pub mod dump;
 pub mod evalop;
 pub mod misc;
+pub mod oracles;
 
 use std::cell::RefCell;
 
@@ -42,6 +43,16 @@ fn dispatch(req: &J) -> J {
         "gcscript" => misc::op_gcscript(req),
         "gcenum" => misc::op_gcenum(req),
         "gcshape" => misc::op_gcshape(req),
+        "oracle" => {
+            let name = req.get("name").and_then(J::as_str).unwrap_or("");
+            match dump::hex_decode(req.get("hex").and_then(J::as_str).unwrap_or("")) {
+                Ok(data) => {
+                    oracles::run(name, &data);
+                    json!({"ok": true})
+                }
+                Err(e) => json!({"bad_request": e}),
+            }
+        }
         other => json!({"bad_request": format!("unknown op {other:?}")}),
     }
 }
